@@ -186,8 +186,8 @@ GRAMMAR = r"""
     interconnect: "(INTERCONNECT" ID ID triple* ")"
     iopath: "(IOPATH" ID_OR_EDGE ID_OR_EDGE triple* ")"
     NAME: /[^"]+/
-    ID_OR_EDGE: ( /[^() ]+/ | "(" /[^)]+/ ")" )
-    ID: ( /[^"() ]+/ | "\"" /[^"]+/ "\"" )
+    ID_OR_EDGE: ( /[^()\s]+/ | "(" /[^)]+/ ")" )
+    ID: ( /[^"()\s]+/ | "\"" /[^"]+/ "\"" )
     triple: "(" ( /[-.0-9]*:/ /[-.0-9]*:/ /[-.0-9]*\)/ | ")" )
     _ignore: "(" _NOB? _ignore* ")" _NOB?
     _NOB: /[^()]+/
